@@ -78,6 +78,7 @@ type Config struct {
 	DebtThr    string    `json:"debt_thr"`
 	DebtLot    string    `json:"debt_lot"`
 	Interval   int64     `json:"interval"`
+	KeeperFocus bool     `json:"keeper_focus,omitempty"` // history aimed at keeper liquidations of multi-depositor cdps (blocks never reach the liquidation interval)
 	Prices     []string  `json:"prices"` // initial price per market ("0" = none)
 	UserFunds  []string  `json:"user_funds"` // per denom
 }
